@@ -110,6 +110,17 @@ def run_compiled_at_positions(ctx, n):
                                   f"rule selects g{exact}", {"weights": ws_text, "h": h, "impl": out, "spec_exact": exact})
 
 
+def subnormal_probe(ctx):
+    """finding K4 (surfaced by the hypothesis `hnorm` that the proof of C03_float_zero_never needs): with a
+    subnormal total the product u*total rounds back up to the total, so a zero-weighted LAST group is selected"""
+    with choicelib.SubstitutedPosition():
+        out = choicelib.impl_choice(2 ** 32 - 1, ["a", "zero"], weights=[5e-324, 0.0])
+    ctx.count("k4:" + ("ok" if out == {"g": {"s": "a"}} else "fails"))
+    if out != {"g": {"s": "a"}}:
+        ctx.violation(f"zero-weighted last group selected for a subnormal total: weights [5e-324, 0.0] at position 2^32-1: {out}",
+                      {"weights": ["5e-324", "0.0"], "h": 2 ** 32 - 1, "impl": out}, key="K4:subnormal-total-zero-last")
+
+
 def run(ctx):
     n = N[ctx.tier]
     if ctx.obligation_breaks or ctx.tie_breaks:
@@ -123,6 +134,7 @@ def run(ctx):
     run_vectors(ctx, n)
     run_compiled(ctx, max(20, n // 4))
     run_compiled_at_positions(ctx, max(30, n // 3))
+    subnormal_probe(ctx)
 
 
 def search(ctx):
